@@ -633,6 +633,13 @@ type result struct {
 	Errs       []string `json:"errs,omitempty"`
 	Events     int      `json:"events"`
 	WallMs     int64    `json:"wall_ms"`
+	Forced     bool     `json:"forced"`
+	ForceGapNs int64    `json:"force_gap_ns"`
+	EarlyN     int      `json:"early_in_bufio"`
+	SkipN      int      `json:"overread_by_reply_reader"`
+	KeptN      int      `json:"buffered_by_transport"`
+	Labels     int      `json:"labels"`
+	Problems   []string `json:"trace_problems,omitempty"`
 }
 
 func (sc *scenario) observe() result {
